@@ -471,7 +471,7 @@ Qed.
 Definition is_query (o : op) : bool :=
   match o with
   | OGetByName _ | OGetName _ | OGetFlags _ | OGet _ _ _ _ | OTargets _ _ _ _ _ | OInits _ _ _ _ _
-  | OBestT _ _ _ | OBestI _ _ _ | OLocal _ _ _ _ | ODefNodes _ | ORegisterNull _ => true
+  | OBestT _ _ _ | OBestI _ _ _ | OLocal _ _ _ _ | ODefNodes _ | ORegisterNull _ | OAllow _ _ _ _ => true
   | _ => false
   end.
 
@@ -498,6 +498,7 @@ Proof.
   - rewrite fst_let. unfold get_initiators. break_match; cbn [fst]; intros <-; try (left; reflexivity); right; do 2 eexists; (split; [eassumption|reflexivity]).
   - rewrite fst_let. unfold get_best_target. break_match; cbn [fst]; intros <-; try (left; reflexivity); right; do 2 eexists; (split; [eassumption|reflexivity]).
   - rewrite fst_let. unfold get_best_initiator. break_match; cbn [fst]; intros <-; try (left; reflexivity); right; do 2 eexists; (split; [eassumption|reflexivity]).
+  - intros <-. now left.
   - intros <-. now left.
   - intros <-. now left.
   - intros <-. now left.
